@@ -143,6 +143,23 @@ func (c *Ctx) classifyLoop(fd *ast.FuncDecl, s ast.Stmt) (string, string) {
 		if x == "" {
 			return "", "loop condition is not of a catalogue shape: " + c.Src(l.Cond)
 		}
+		// for ; len(x) > 0; x = x[1:] { ... }: the post statement shrinks x after every iteration (continue included)
+		if l.Post != nil && c.shrinks(l.Post, x) {
+			grows := false
+			ast.Inspect(l.Body, func(n ast.Node) bool {
+				if as, ok := n.(*ast.AssignStmt); ok {
+					for _, lh := range as.Lhs {
+						if nosp(c.Src(lh)) == x {
+							grows = true
+						}
+					}
+				}
+				return true
+			})
+			if !grows {
+				return "slice-drain", "the post statement removes an element from " + x + " after every iteration and the body does not assign it"
+			}
+		}
 		// statements of the body that assign x
 		var shrinkAt token.Pos
 		nShrink := 0
